@@ -3,7 +3,7 @@
 -/
 import AmiscProofs.Combination
 import AmiscProofs.SparseExact
-import AmiscProps.C01
+import AmiscProps.C01Core
 
 namespace Amisc.C03
 open Amisc.Comb Finset
